@@ -87,6 +87,9 @@ def make_plan(tree, seed, i, tier="quick"):
         # and ext4 files; larger on some network / copy-on-write filesystems)
         "stdout_bufsize": rng.choice((4096, 4096, 8192, 65536, 1048576)),
         "crlf": rng.random() < 0.12,
+        # how the source tree relates to git: a normal clone; an exported tarball (no repository);
+        # a copy sitting untracked inside some other repository (third_party/, _deps/)
+        "git_repo": rng.choices(("tracked", "norepo", "untracked"), (0.7, 0.15, 0.15))[0],
     }
     if rng.random() < 0.25:
         env["extra_entries"][UNITS_DIR] = rng.sample(STRAY, rng.choice((1, 2, 3)))
@@ -296,6 +299,8 @@ def sweep_variants(plan, twin, tier):
     variants = [{"variant": "sweep-%d" % i, "faults": f, "env": {}} for i, f in enumerate(out)]
     for g in GIT_HANDLED + GIT_UNHANDLED + ("empty",):
         variants.append({"variant": "sweep-git-%s" % g, "faults": [], "env": {"git": g}})
+    for st in ("norepo", "untracked"):
+        variants.append({"variant": "sweep-gitrepo-%s" % st, "faults": [], "env": {"git_repo": st}})
     return variants
 
 
@@ -343,3 +348,67 @@ def singles(tree, seed):
             })
             n += 1
     return plans
+
+
+# ------------------------------------------------------------------------------------------------
+# sessions: sequences of invocations on one simulated machine (history)
+
+
+def session_plans(tree, seed, tier):
+    """The answer for a selection must not depend on what the generator was asked before on the
+    same machine.  Each session is 2-4 invocations whose selections overlap, grow, shrink or
+    repeat; between invocations some headers may be touched (newer mtime, same bytes)."""
+    n = 8 if tier == "quick" else 80
+    tcs = all_toolchains()
+    out = []
+    for i in range(n):
+        rng = rng_for(seed, "session", i)
+        env = {
+            "listdir": {UNITS_DIR: _listdir_spec(rng), CONSTANTS_DIR: _listdir_spec(rng)},
+            "listdir_default": _listdir_spec(rng),
+            "extra_entries": {},
+            "git": rng.choice(GIT_OK),
+            "stdout_mode": rng.choices(("block", "unbuffered", "line"), (0.6, 0.25, 0.15))[0],
+            "stdout_bufsize": rng.choice((4096, 4096, 8192, 65536)),
+            "crlf": False,
+            "git_repo": "tracked",
+        }
+        k = rng.choice((2, 3, 3, 4))
+        first = rng.sample(tree.units, min(rng.choice((0, 1, 2, 3)), len(tree.units)))
+        sels = []
+        cur = list(first)
+        for j in range(k):
+            r = rng.random()
+            if j == 0:
+                units = list(cur)
+            elif r < (0.5 if j == 1 else 0.3):  # grow: needs headers no earlier invocation has seen
+                more = [u for u in rng.sample(tree.units, min(rng.choice((1, 2, 4)), len(tree.units))) if u not in cur]
+                units = cur + more
+            elif r < 0.6:  # repeat an earlier selection
+                prev = sels[rng.randrange(len(sels))]["units"]
+                units = list(prev) if isinstance(prev, list) else "ALL"
+            elif r < 0.72:  # shrink
+                units = cur[: len(cur) // 2]
+            elif r < (0.76 if tier == "quick" else 0.82):
+                units = "ALL"
+            else:  # something else entirely
+                units = rng.sample(tree.units, min(rng.choice((1, 2, 3)), len(tree.units)))
+            if isinstance(units, list):
+                cur = list(units)
+            consts = rng.sample(tree.constants, min(rng.choice((0, 0, 1)), len(tree.constants)))
+            sels.append({"units": units, "constants": consts, "io": rng.random() < 0.6, "main_files": [], "version_id": rng.choice(VERSION_IDS) if rng.random() < 0.5 else None, "opt_order": ["units", "constants", "noio", "version"]})
+        invs = []
+        touched = {}
+        year = 2026
+        for j, sel in enumerate(sels):
+            if j > 0 and rng.random() < 0.35:
+                for h in rng.sample(tree.public_headers, rng.choice((1, 2, 3))):
+                    touched[CODE_PREFIX + h] = touched.get(CODE_PREFIX + h, 0) + 60 * (j + 1)
+            e = dict(env, clock=["%04d-0%d-01T00:00:00" % (year, 1 + j)], touched=dict(touched))
+            invs.append({"seed": seed, "run": "session-%d/%d" % (i, j), "hashseed": HASHSEEDS[i % len(HASHSEEDS)], "selection": sel, "env": e, "faults": [],
+                         "toolchain": {"a": list(tcs[(i + j) % len(tcs)])}, "probe": {"include_order": rng.randrange(1 << 30), "api": []}})
+        out.append({"seed": seed, "run": "session-%d" % i, "hashseed": HASHSEEDS[i % len(HASHSEEDS)], "session": invs})
+    return out
+
+
+CODE_PREFIX = "au/code/"
